@@ -29,6 +29,8 @@ func main() {
 		fs.BoolVar(&opt.Verbose, "v", false, "verbose")
 		fs.StringVar(&opt.DumpSMT, "dump", "", "dump SMT scripts to dir")
 		fs.IntVar(&opt.Timeout, "timeout", 0, "per-obligation solver timeout (s)")
+		fs.BoolVar(&opt.EmitOpen, "emit-open", false, "print open: lines for failing obligations")
+		fs.BoolVar(&opt.NoReplay, "noreplay", false, "do not replay counterexamples")
 		fs.BoolVar(&opt.NoEvidence, "noevidence", false, "do not write the evidence file")
 		fs.Parse(os.Args[2:])
 		if opt.Tier == "" {
@@ -44,6 +46,8 @@ func main() {
 			opt.NoEvidence = true
 		}
 		os.Exit(RunCheck(opt))
+	case "selftest":
+		os.Exit(RunSelftest(os.Args[2:]))
 	case "replay":
 		os.Exit(RunReplay(os.Args[2:]))
 	default:
